@@ -145,7 +145,25 @@ def r_stats(name):
         if name == "stats.gammastd_grp":
             g = np.array([t % 2 for t in range(n)], dtype="int16")
             ci = np.array([[0, n // 2 - 1], [1, n // 2]], dtype="int16")
-            return gu(name, (xi, g, 2, float(nd), ci), [(n, "int16")], twin_ins=(_widen(xi), g, 2, float(nd), ci))
+            # several pixels per call, from wide to low variability (high gamma shape: the index is most sensitive to the
+            # precision of the fit there); the gufunc broadcasts over rows, the interpreted source is run row by row
+            rows = []
+            # (float32 input: single-precision logarithms in compiled code are amplified by such ill-conditioned fits far beyond
+            #  "single-precision accuracy" of the result - that regime is C07's interval oracle, so float32 keeps ordinary rows only)
+            specs = [(0, 1), (500, 7), (2000, 31), (5000, 101), (9000, 13), (300, 3), (12000, 257), (40, 1)] if dt == "int16" else [(0, 1), (3, 1)]
+            for j, (base, spread) in enumerate(specs):
+                r = (np.abs(x.astype(np.float64)) % spread if j else np.abs(x.astype(np.float64))) + base
+                r = np.roll(r, j).astype(dt)
+                r[xi == nd] = nd
+                rows.append(r)
+            cube = np.stack(rows)
+            got = call(name, PROGS[name], cube, g, 2, float(nd), ci)
+            tw = np.zeros(cube.shape, dtype="int16")
+            for j in range(cube.shape[0]):
+                o = np.zeros(n, dtype="int16")
+                T(name)(_widen(cube[j]), g, 2, float(nd), ci, o)
+                tw[j] = o
+            return (np.asarray(got),), (tw,)
         xm = np.array(case["mk"], dtype="float64").astype(dt)
         if name == "stats.mk_score":
             return nj(name, (xm,), twin_args=(_widen(xm),))
